@@ -212,10 +212,25 @@ def _codes(text):
     return tuple(int(x, 0) for x in text.split(","))
 
 
+THOROUGH_BUDGET_S = 900   # stop generating random cases after this much wall time (directed / corpus cases come first)
+
+
+def over_budget(ctx) -> bool:
+    import time
+
+    if ctx.tier == "quick" or time.time() - ctx.t0 < THOROUGH_BUDGET_S:
+        return False
+    if not ctx.hist.get("budget-stop"):
+        ctx.count("budget-stop")
+    return True
+
+
 def make_jobs(ctx, specs, combos, sweep=40):
     """specs: list of (seed, name, kwargs) -> jobs with halmos runs done"""
     jobs = []
     for k, (seed, name, kw) in enumerate(specs):
+        if not kw.get("directed") and over_budget(ctx):
+            break
         cs = combos(k)
         if kw.get("solver"):
             cs = [(s_, c_, cs[0][2]) for (s_, c_) in _solver_cmds() if s_ == kw["solver"]][:1] or cs
@@ -350,7 +365,9 @@ def correspond(ctx):
                              {"learn_on": "taken", "deep": False, "use": "mem", "kind": "assertTrue"},
                              {"learn_on": "fall", "deep": False, "use": "mem", "kind": "panic"}]):
         specs.append((21 + j, f"Subst{j}", {"pool": pool, "ntests": 0, "subst": sub}))
-    nsib = ctx.scale(6, 120)
+    for sp in specs:
+        sp[2]["directed"] = True
+    nsib = ctx.scale(6, 24)
     for j in range(nsib):
         kw = {"pool": pool, "ntests": 0, "siblings": {"violable_at": j}, "solver": "yices"}
         if j % 3 == 2:
@@ -361,7 +378,7 @@ def correspond(ctx):
             if j % 2 == 0:
                 kw["solver_threads"] = 1
         specs.append((ctx.rng.randrange(1 << 48), f"Sib{j + 2}", kw))
-    n = ctx.scale(32, 1200)
+    n = ctx.scale(32, 300)
     for i in range(n):
         kw = {"pool": pool}
         if i % 5 == 2:
@@ -385,6 +402,8 @@ def correspond(ctx):
     chunk = 60
     for off in range(0, len(specs), chunk):
         jobs = make_jobs(ctx, specs[off:off + chunk], lambda k, off=off: combos(off + k))
+        if not jobs:
+            break
         batch = e2e.RefBatch()
         collect(ctx, jobs, batch)
         batch.run(ctx)
